@@ -58,7 +58,7 @@ impl PackageJsonParser {
     ];
 
     /// Specifier prefixes of dependencies that do not come from the registry
-    const NON_REGISTRY_PREFIXES: [&'static str; 10] = [
+    const NON_REGISTRY_PREFIXES: [&'static str; 13] = [
         "catalog:",
         "workspace:",
         "file:",
@@ -67,9 +67,19 @@ impl PackageJsonParser {
         "git:",
         "git@",
         "github:",
+        "gitlab:",
+        "bitbucket:",
+        "gist:",
         "http:",
         "https:",
     ];
+
+    /// A specifier with a slash that is not an `npm:` alias is a path (`./x`, `../x`, `~/x`,
+    /// `/x`) or a hosted git repository (`user/repo`, `user/repo#semver:^1.0.0`): no version
+    /// range and no dist-tag contains a slash
+    fn is_path_or_repository(value: &str) -> bool {
+        value.contains('/') && !value.starts_with("npm:")
+    }
 
     /// Parse npm alias format: npm:package@version or npm:@scope/package@version
     /// Returns (actual_package_name, version)
@@ -176,10 +186,11 @@ impl PackageJsonParser {
             // Skip specifiers that do not name a registry version:
             // - pnpm catalog references (e.g., "catalog:ag-grid" or "catalog:"), which are
             //   resolved from pnpm-workspace.yaml, not version-checked here
-            // - workspace/file/link protocols, git and tarball URLs
+            // - workspace/file/link protocols, git and tarball URLs, local paths, hosted git
             if Self::NON_REGISTRY_PREFIXES
                 .iter()
                 .any(|prefix| raw_version.starts_with(prefix))
+                || Self::is_path_or_repository(&raw_version)
             {
                 continue;
             }
